@@ -41,6 +41,7 @@ type Program struct {
 	provBusy   map[provKey]bool
 	storeFx    map[*ssa.Function]*storeFnInfo
 	blockReach map[*ssa.BasicBlock]map[*ssa.BasicBlock]bool
+	paramMins  map[string]map[string]int64
 }
 
 // LoadConfig controls Load.
